@@ -132,6 +132,7 @@ def run(facts, rep, ctx):
     etc_selection(facts, rep, R5)
     R7 = rep.rule("R19.7", "tile walk: output position polynomial of the 8x8 Z-order walk and of the ETC1 tile/block/pixel nest", floor=2)
     tile_walk(facts, rep, R7)
+    texel_kept(facts, rep, R7)
     R6 = rep.rule("R19.6", "ETC1 differential delta: 3-bit two's-complement sign extension (exhaustive over the 8 inputs)", floor=1)
     sign_extension(facts, rep, R6)
     R8 = rep.rule("R19.8", "every ETC1 block reaches the pixel nest; palette images go through block re-linearisation with aligned dimensions and are cropped", floor=3)
@@ -654,6 +655,11 @@ def overflow(facts, rep, R4):
             if r and res[0] >= r[0] and res[1] <= r[1]:
                 rep.count("payload_overflow_sites_discharged")
                 continue
+            if not b.pub and b.kind != "Closure" and any(x[0] == "param" and b.local_ty(x[1]) in c05.BITS for t_ in (a, c) for x in walk(t_)):
+                # the operands are parameters of a private helper: their range is whatever its callers pass
+                # (typically a masked bit field), which this site-local interval does not see
+                rep.inconc(R4, "%s computes %s on its own integer parameters; the ranges its callers pass were not propagated" % (b.name.rsplit("::", 1)[-1], op))
+                continue
             flagged += 1
             rep.violation(R4, b.name, "overflow:%s:%s" % (op, fmt(norm(a))[:24] + "," + fmt(norm(c))[:24]),
                           "%s computes %s(%s, %s) in %s on payload bits: range %s..%s can leave the type, so checked builds panic where unchecked builds wrap" % (
@@ -709,11 +715,61 @@ def sign_extension(facts, rep, R6):
         else:
             rep.ok(R6, {"helper": hn, "bits": bits, "inputs": 1 << bits, "uses": uses})
     # the three deltas are applied to r, g, b respectively with a wrapping add of the extended value
+    for bb, t in e.calls():
+        nm = callee_names(t)[1] or ""
+        short = nm.rsplit("::", 1)[-1]
+        if "<impl u8>::" in nm and short in ("saturating_add", "checked_add", "strict_add"):
+            used = [hn for (hn, bits) in helpers for a in t["args"]
+                    if any(x[0] == "call" and x[1] == hn for x in walk(e.term_of_operand(a)))]
+            if used:
+                rep.violation(R6, ETC, "delta-application:" + short,
+                              "the sign-extended delta from %s is an 8-bit two's-complement value (-1 is 0xFF) and is applied with u8::%s: base 10 with delta -1 gives %s, the ETC1 rule is base + delta = 9 (a negative delta needs the wrapping add, or a signed type)" % (
+                                  used[0].rsplit("::", 1)[-1], short, "255 (saturated)" if short == "saturating_add" else "no value (overflow)"),
+                              "%s:%s" % (e.file, t.get("line", e.line)))
+                return
     adds = [t for bb, t in e.calls() if (callee_names(t)[1] or "").endswith("<impl u8>::wrapping_add")]
     if len(adds) >= 3:
         rep.ok(R6, {"delta_application": "base.wrapping_add(sign_extend(delta)) x%d" % len(adds)})
     else:
         rep.count("delta_additions_not_wrapping", 1)
+
+
+def texel_kept(facts, rep, R7):
+    """The texel copied into the output is the one the channel decoder returned: after `decode_color` has produced
+    it, the same local is not overwritten from a source that reads no payload (a constant fill under a condition on
+    the decoded value) before the iteration ends."""
+    from binser import rpo_index
+    DCN = "mila::texture_decoder::decode_color"
+    b = facts.body("mila::texture_decoder::decode_rgba_pixel_data")
+    if b is None:
+        return
+    nv = b.named_view()
+    decoded = {}
+    for i, blk in enumerate(nv.blocks):
+        t = blk["term"]
+        if t["k"] == "call" and (callee_names(t)[1] or "") == DCN and t.get("dest") and not t["dest"]["p"]:
+            decoded.setdefault(t["dest"]["l"], []).append(i)
+    if not decoded:
+        return
+    rpo = rpo_index(nv)
+    for loc, starts in decoded.items():
+        seen, todo = set(), list(starts)
+        while todo:
+            c = todo.pop()
+            for s_ in nv.succs(c):
+                if s_ not in seen and rpo.get(s_, -1) > rpo.get(c, -1) and s_ not in starts:
+                    seen.add(s_)
+                    todo.append(s_)
+        for i in sorted(seen):
+            for st in nv.blocks[i]["stmts"]:
+                if st["k"] == "assign" and st["lhs"]["l"] == loc and not st["lhs"]["p"]:
+                    t = nv.term_of_rvalue(st["rv"])
+                    if not any(x[0] in ("param", "var") or (x[0] == "call" and ("read_" in x[1] or x[1] == DCN)) for x in walk(t)):
+                        rep.violation(R7, b.name, "texel-replaced",
+                                      "after decode_color has produced the texel, `%s` is overwritten with %s on some path: the pixel written at (x, y) is no longer the expansion of its source bits (every channel must stay within one quantisation step of them)" % (
+                                          nv.local_name(loc) or "the texel", fmt(t)[:50]), "%s:%s" % (b.file, st.get("line", b.line)))
+                        return
+    rep.ok(R7, {"texel": "copied as decoded", "decode_sites": sum(len(v) for v in decoded.values())})
 
 
 def tile_walk(facts, rep, R7):
